@@ -958,8 +958,9 @@ def _constructors(tree):
     for node in tree.body:
         if isinstance(node, ast.ClassDef):
             for f in node.body:
-                if isinstance(f, ast.FunctionDef) and f.name == '__init__':
-                    out.append((f'{node.name}.__init__', f))
+                if isinstance(f, ast.FunctionDef) and (f.name == '__init__' or (
+                        f.name.startswith('from_') and f.name not in ('from_dataset', 'from_sequence'))):
+                    out.append((f'{node.name}.{f.name}', f))     # constructors proper and the alternative constructors
     return out
 
 
@@ -1003,6 +1004,6 @@ CTOR_FILES = {'base': 'base.py', 'content': 'content.py', 'seg_content': 'seg/co
               'sr_content': 'sr/content.py', 'sr_sop': 'sr/sop.py', 'sr_value_types': 'sr/value_types.py',
               'sr_templates': 'sr/templates.py', 'ko_content': 'ko/content.py', 'ko_sop': 'ko/sop.py',
               'ann_content': 'ann/content.py', 'ann_sop': 'ann/sop.py', 'pr_content': 'pr/content.py', 'pr_sop': 'pr/sop.py',
-              'legacy_sop': 'legacy/sop.py'}
+              'legacy_sop': 'legacy/sop.py', 'volume': 'volume.py'}
 for _tag, _file in CTOR_FILES.items():
     TARGETS[f'T20ctor_{_tag}'] = {'file': _file, 'build': make_ctor_target(_tag), 'imports': ['HdVerif.Model.Aliasing']}
